@@ -1,5 +1,6 @@
 """C13 - deep copy and model duplication are faithful and independent: a copy shares no node with its source, the
 source is only read, every field of a node is copied, duplicate() builds the copy only through the new model."""
+import re
 from ir import Program, callee_of, callee_generic, has_field, ends_in_field
 from flow import origins, is_local_op, call_matches, must_pass, source_names, strict_source_roots, iter_uses, forward_taint, resolve_place, deep_sources, switch_edges_on_call_result
 import events as E
@@ -249,26 +250,42 @@ def run(ctx):
                     okr = True
         C.check(okr, 'C13-MUST-duplicate', 'root-%s-transferred' % fld, 'duplicate() does not transfer the %s of the root element itself (only its sub elements are copied): the duplicate serializes to a different text' % fld,
                 '%s:%d' % (du.file, du.line), sample={'fn': 'duplicate', 'root_field': fld})
-    # membership rebuilt from the new model's file handles only
+    # membership rebuilt from the new model's file handles only.  Provenance, not names: the handles put into file_membership come
+    # out of a map lookup (filemap.get), the map is filled with handles that derive from create_file of the new model, and no value
+    # derives from the original's membership set without passing that lookup.  The insertion may sit in a closure of an iterator chain
+    # (`.filter_map(|f| filemap.get(..).cloned()).for_each(|f| set.insert(f))`): then the value is the closure parameter and the lookup
+    # must be in a sibling closure of duplicate().
+    dus = P.with_closures(du)
     ins = []
-    for pos, t in du.iter_calls():
-        if call_matches(t, r'HashSet::<T, S, A>::insert$'):
-            rp = E.recv_place(du, t)
-            if rp is not None and has_field(rp, 'ElementRaw.file_membership'):
-                ins.append((pos, t))
-    okm = len(ins) == 1
-    if okm:
-        names = source_names(du, ins[0][1]['args'][1])
-        vs = value_sources(du, ins[0][1]['args'][1])
-        okm = 'copy_file' in names and 'orig_file' not in names and any(k == 'call' and 'WeakArxmlFile as std::clone::Clone>::clone' in v for k, v in vs)
-    C.check(okm, 'C13-MUST-duplicate', 'membership-from-new-files', 'file membership of the duplicate is rebuilt from handles that are not (only) files of the new model: the copy would reference files of the original',
+    for x in dus:
+        for pos, t in x.iter_calls():
+            if call_matches(t, r'HashSet::<T, S, A>::(insert|extend)$|Extend<.*>>::extend$'):
+                rp = E.recv_place(x, t)
+                nm, cs_, fl = deep_sources(x, t['args'][0], depth=10) if t['args'] else (set(), set(), set())
+                if (rp is not None and has_field(rp, 'ElementRaw.file_membership')) or 'ElementRaw.file_membership' in fl:
+                    ins.append((x, pos, t))
+    lookups = [(x, pos) for x in dus for pos, t in x.iter_calls() if call_matches(t, r'HashMap::<K, V, S.*>::get$')]
+    okm = bool(ins) and bool(lookups)
+    why = ''
+    for x, pos, t in ins:
+        if len(t['args']) < 2:
+            continue
+        nm, cs_, fl = deep_sources(x, t['args'][1], depth=14)
+        via_lookup = any(re.search(r'HashMap::<K, V, S.*>::get$', c or '') for c in cs_)
+        from_param = x.kind == 'Closure' and any(o[0] == 'param' for o in origins(x, t['args'][1]))
+        from_orig = ('ElementRaw.file_membership' in fl or any((c or '').endswith('WeakArxmlFile>::upgrade') for c in cs_)) and not via_lookup
+        if from_orig or not (via_lookup or from_param):
+            okm = False
+            why = x.where(pos)
+    C.check(okm, 'C13-MUST-duplicate', 'membership-from-new-files', 'file membership of the duplicate is rebuilt from handles that are not (only) files of the new model: the copy would reference files of the original', why,
             sample={'fn': 'duplicate', 'membership_source': 'filemap[filename] (handles of the new model)'})
-    # the filemap holds only new files
+    # the filemap holds only new files: what is inserted into the map derives from create_file (of the new model), not from the files of self
     hm = [(pos, t) for pos, t in du.iter_calls() if call_matches(t, r'HashMap::<K, V, S, A>::insert$')]
-    okh = len(hm) == 1
-    if okh:
-        n_, c_, f_ = deep_sources(du, hm[0][1]['args'][2])
-        okh = 'new_file' in n_ and 'orig_file' not in n_
+    okh = len(hm) >= 1
+    for pos, t in hm:
+        n_, c_, f_ = deep_sources(du, t['args'][2], depth=14)
+        if not any((c or '').endswith('AutosarModel>::create_file') for c in c_) or 'self' in n_:
+            okh = False
     C.check(okh, 'C13-MUST-duplicate', 'filemap-holds-new-files', 'the file map used to rebuild membership holds handles of the original model')
     # the membership write lock is on an element of the copy
     BL = BodyLocks(P, du)
